@@ -709,6 +709,10 @@ def jobs(tier):
     js.append({"name": "var-var", "kind": "var_var", "shapes": [list(s) for s in sh]})
     for i in range(1, len(sh)):
         js.append({"name": f"matmul-{i}", "kind": "matmul", "shapes": [list(sh[i])], "others": [list(s) for s in sh], "zeros": False})
+    # batch products whose batch axes broadcast in BOTH directions (rank 4 against rank 3 / 4)
+    js.append({"name": "matmul-batch-broadcast", "kind": "matmul_pairs",
+               "pairs": [[[3, 2, 1], [2, 1, 1, 2]], [[3, 1, 2], [2, 1, 2, 1]], [[2, 1, 2, 1], [3, 1, 2]], [[3, 1, 2, 1], [1, 2, 1, 2]],
+                         [[1, 2, 2, 2], [2, 1, 2, 1]], [[3, 2, 1], [2, 1, 2, 2]], [[2, 2], [2, 1, 2, 2]], [[2, 1, 2, 2], [2]]]})
     js.append({"name": "matmul-zeros", "kind": "matmul", "shapes": [list(s) for s in sh[1:5]], "others": [list(s) for s in sh[1:5]], "zeros": True})
     for i in range(1, len(sh)):
         js.append({"name": f"indexing-{i}", "kind": "indexing", "shapes": [list(sh[i])]})
@@ -769,6 +773,11 @@ def _run_job(job):
         out = []
         for sv in _t(job["shapes"]):
             out += matmul_pair(sv, _t(job["others"]), job["zeros"])
+        return out
+    if k == "matmul_pairs":
+        out = []
+        for sv, sc in job["pairs"]:
+            out += matmul_pair(tuple(sv), [tuple(sc)], False)
         return out
     if k == "indexing":
         return indexing(_t(job["shapes"]))
